@@ -137,7 +137,7 @@ func termDepth(v ssa.Value, d int, phi map[*ssa.Phi]ssa.Value) string {
 			}
 		}
 		if op == token.NEQ {
-			return "!(" + a + " == " + b + ")"
+			return "!((" + a + " == " + b + "))"
 		}
 		return "(" + a + " " + op.String() + " " + b + ")"
 	case *ssa.Call:
